@@ -232,3 +232,65 @@ def build2(m):
             NONBLANK],
             decreases='len(lines.lines) - 1 - lines._index')},
         prop=P + ['C07']), classmethod_=True)
+
+
+ENDS_NL = "forall(lambda j: lines.lines[j].endswith('\\n'), 0, len(lines.lines))"
+
+
+def build3(m):
+    """Quote."""
+    def method(cls, name, c, static=False, classmethod_=False):
+        m.methods[(cls, name)] = c.key
+        c.is_static = static
+        c.is_classmethod = classmethod_
+        m.add(c)
+        return c
+
+    OPENINFO = TTuple([INT, STR, STR, STR])
+    method('CodeFence', 'start', Contract(
+        MOD + ':CodeFence.start', [('cls', cls_t('CodeFence')), ('line', STR)], returns=BOOL, trusted=True,
+        ensures=['implies(result, not is_none(CodeFence._open_info))'],
+        modifies=['G:CodeFence._open_info'],
+        note='A5 capture contract for CodeFence.pattern: a truthy start() has stored the opener'),
+        classmethod_=True)
+    method('BlockCode', 'start', Contract(
+        MOD + ':BlockCode.start', [('line', STR)], returns=BOOL, pure=True,
+        ensures=['result == INDENTED(line)'], prop=['C01']), static=True)
+    method('Quote', 'start', Contract(
+        MOD + ':Quote.start', [('line', STR)], returns=BOOL, pure=True,
+        ensures=["implies(result, line.lstrip(' ').startswith('>'))"], prop=['C01', 'C04']), static=True)
+    method('Quote', 'convert_leading_tabs', Contract(
+        MOD + ':Quote.convert_leading_tabs', [('string', STR)], returns=STR, pure=True,
+        requires=['len(string) >= 1'],
+        ensures=['len(result) >= 1', 'implies(len(string) >= 2, len(result) >= 2)',
+                 "implies(string.startswith('>'), result.startswith('>'))"],
+        loops={0: Loop(invariant=['count >= 0'])},
+        prop=['C01', 'C04']), static=True)
+    method('Quote', 'read', Contract(
+        MOD + ':Quote.read', [('cls', cls_t('Quote')), ('lines', FW)], returns=TOpt(PB),
+        requires=READER_REQ + ["lines.lines[lines._index + 1].lstrip(' ').startswith('>')"],
+        ensures=READER_ENS_SOME + [
+            # C13 hand-off: nested tokenization starts at the quote's own first line and the
+            # buffer holds exactly one element per consumed line
+            ('start_line == lines.start_line + old(lines._index) + 1', 'C13'),
+            ('len(line_buffer) == lines._index - old(lines._index)', 'C13'),
+            # C11/C04: the setext switch is restored to what it was
+            ('Paragraph.parse_setext == old(Paragraph.parse_setext)', 'C11'),
+        ],
+        ensures_exc=['CURSOR_OK(lines)',
+                     ('Paragraph.parse_setext == old(Paragraph.parse_setext)', 'C11')],
+        modifies=['lines._index', 'G:SCRATCH', 'G:FOOTNOTES', 'G:CodeFence._open_info',
+                  'G:Paragraph.parse_setext',
+                  'N:FileWrapper._index', 'N:FileWrapper.lines', 'N:FileWrapper.start_line',
+                  'N:FileWrapper._anchor', 'N:ParseBuffer.items', 'N:ParseBuffer.loose'],
+        allow_exc=['CustomTokenError'],
+        body_types={'next_line': TOpt(STR), 'line_buffer': TList(STR)},
+        loops={0: Loop(invariant=[
+            'CURSOR_OK(lines)', 'lines._index > old(lines._index)',
+            'len(line_buffer) == lines._index - old(lines._index)',
+            'start_line == lines.start_line + old(lines._index) + 1',
+            'is_none(next_line) == (lines._index + 1 >= len(lines.lines))',
+            'implies(not is_none(next_line), some(next_line) == lines.lines[lines._index + 1])',
+            'Paragraph.parse_setext == old(Paragraph.parse_setext)',
+        ], decreases='len(lines.lines) - 1 - lines._index')},
+        prop=P), classmethod_=True)
